@@ -27,3 +27,8 @@ package topo
 //@ iface Store.Delete(ctx, object) (err)
 //@   modifies topoWrites
 //@   ensures topoWrites == old(topoWrites) + 1
+
+//@ iface Store.List(ctx, filters) (result, err)
+//@   modifies nothing
+//@   ensures err != nil ==> len(result) == 0
+//@   ensures result == nil || fresh(arrOf(result))
